@@ -225,6 +225,15 @@ Find(esz, b, unsup) ==
      ELSE IF hit < ne THEN Answer("find", arg, "ok", <<hit * esz>>)
      ELSE Answer("find", arg, "none", <<>>)
 
+(* mpt_memrev(data, pre, len): exchange the first pre bytes with the rest   *)
+(* (rotation used by queue_align); pre > len is refused.  The queue itself *)
+(* is not involved.                                                        *)
+MemRev(d, pre) ==
+  LET arg == [data |-> d, pre |-> pre] IN
+  /\ UNCHANGED <<store, max, off, len, deq, ctr>>
+  /\ IF pre > Len(d) THEN Answer("memrev", arg, "refused", <<>>)
+     ELSE Answer("memrev", arg, IF Len(d) = 0 THEN "any" ELSE "ok", SubSeq(d, pre + 1, Len(d)) \o SubSeq(d, 1, pre))
+
 ---------------------------------------------------------------------------
 Init ==
   /\ max \in 0..MaxCap
@@ -242,6 +251,7 @@ Next ==
   \/ \E pos \in 0..(MaxCap + 1) : Align(pos)
   \/ \E n \in 0..(MaxCap + 1) : Resize(n) \/ Prepare(n, PrepareCap(n))
   \/ String
+  \/ \E n \in 0..3, pre \in 0..4 : MemRev([i \in 1..n |-> 10 + i], pre)
   \/ \E esz \in 1..3, k \in 0..MaxLen : LET b == IF k = 0 THEN 0 ELSE IF k <= len THEN deq[k] ELSE 251 IN Find(esz, b, FindUnsup(esz, b))
 
 Spec == Init /\ [][Next]_vars
